@@ -92,6 +92,7 @@ Definition check_http (c : http_case) : list string :=
 Record index_case := {
   i_seed : nat; i_len : nat; i_cached : bool; i_model : bool;
   i_conn : conn_ev; i_reads : list rd_ev; i_live : bool;
+  o_mid : option (list N);   (* under the advertised name while the first download's body streams in; None = nothing (or no cut to look at) *)
   o_res1 : option (list N); o_adv1 : option (list N); o_tmps1 : nat;
   o_res2 : option (list N); o_adv2 : option (list N); o_tmps2 : nat
 }.
@@ -110,7 +111,9 @@ Definition check_index (c : index_case) : list string :=
   (if i_cached c then
      (* c20_cached_download_complete_or_error on the real cache directory *)
      tag_if (short (o_adv1 c) || short (o_adv2 c) || short (o_res1 c) || short (o_res2 c)) (sfx "viol:cached-short-body") ++
-     tag_if (negb (Nat.eqb (o_tmps1 c) 0 && Nat.eqb (o_tmps2 c) 0)) "viol:temporary-file-left-behind"
+     tag_if (negb (Nat.eqb (o_tmps1 c) 0 && Nat.eqb (o_tmps2 c) 0)) "viol:temporary-file-left-behind" ++
+     (* c20_cached_never_partially_advertised: what is there while the download runs *)
+     tag_if (short (o_mid c) || altered (o_mid c)) (sfx "viol:partial-file-advertised-during-download")
    else
      tag_if (short (o_res1 c) || short (o_res2 c)) (sfx "viol:eof-before-complete")) ++
   (* the second, fault-free download completes (unless the cache holds a short body: the finding above);
@@ -119,6 +122,9 @@ Definition check_index (c : index_case) : list string :=
   tag_if (negb (short (o_adv1 c)) && negb (bytes_opt_eqb (o_res2 c) (Some dat))) "viol:healthy-download-after-faulty-one-fails" ++
   (if i_cached c && i_model c then
      let d0 := {| adv := None; tmps := [] |} in
+     tag_if (negb (existsb (fun d' => bytes_opt_eqb (adv d') (o_mid c))
+                     (retrieve_trace code_cshape copy_goes_into_temporary_file dat (i_conn c) (i_reads c) d0)))
+       "mismatch:cached-index-during-download" ++
      match cached_fetch code_cshape dat (i_conn c) (i_reads c) d0 with
      | Ok (d1, r1, _) =>
          tag_if (negb (bytes_opt_eqb r1 (o_res1 c))) "mismatch:cached-index-result" ++
